@@ -83,6 +83,8 @@ def cases(tier, seed):
             yield {"kind": "ctor_priors", "cls": cname, "seed": rnd.randrange(10**6)}
         for by in ("closure", "name"):
             yield {"kind": "shared_prior", "by": by, "seed": rnd.randrange(10**6)}
+        for cls_, (sv, rc) in itertools.product(["interval", "greater", "less"], [((0.5, 4.0), (0.01, 0.9)), ((0.01, 0.9), (0.5, 4.0)), ((2.0, 3.0), (2.5, 30.0))]):
+            yield {"kind": "bounds_loaded", "cls": cls_, "saved": list(sv), "receiver": list(rc), "seed": rnd.randrange(10**6)}
         for spec in ("RBFKernel", "ScaleKernel", "GaussianLikelihood", "PeriodicKernel"):
             for pr in ("GammaPrior", "LogNormalPrior", "HalfCauchyPrior", "UniformPrior"):
                 yield {"kind": "registered", "module": spec, "prior": pr, "seed": rnd.randrange(10**6)}
@@ -172,7 +174,7 @@ def run_case(case, ctx):
     from vf import util
 
     g = util.gen(case["seed"])
-    return {"constraint": _constraint, "setter": _setter, "sequence": _sequence, "prior": _prior, "registered": _registered, "ctor_priors": _ctor_priors, "aliasing": _aliasing, "shared_prior": _shared_prior}[case["kind"]](case, ctx, g)
+    return {"constraint": _constraint, "setter": _setter, "sequence": _sequence, "prior": _prior, "registered": _registered, "ctor_priors": _ctor_priors, "aliasing": _aliasing, "shared_prior": _shared_prior, "bounds_loaded": _bounds_loaded}[case["kind"]](case, ctx, g)
 
 
 def _constraint(case, ctx, g):
@@ -561,6 +563,45 @@ def _registered(case, ctx, g):
     back = getattr(mod, pub).detach()
     ctx.close("sample_from_prior_readback", back, expected.expand_as(back), (1e-9, 1e-7), cls="sample:" + case["prior"])
     check_invariant(ctx, module, "sample_from_prior")
+    ctx.cell({k: v for k, v in case.items() if k != "seed"})
+
+
+def _bounds_loaded(case, ctx, g):
+    """the bounds of a constraint are part of the state (persistent buffers): after load_state_dict from a module built with
+    OTHER bounds, the receiving module's constraint is the saved one in every respect - transform into [lower, upper],
+    inverse, the parameter's value, assignments through the setter and their rejection outside the bounds"""
+    import torch
+
+    import gpytorch
+
+    C, K = gpytorch.constraints, gpytorch.kernels
+    lo1, hi1 = case["saved"]
+    lo2, hi2 = case["receiver"]
+    mk = {"interval": lambda a, b: C.Interval(a, b), "greater": lambda a, b: C.GreaterThan(a), "less": lambda a, b: C.LessThan(b)}[case["cls"]]
+    src = K.RBFKernel(lengthscale_constraint=mk(lo1, hi1))
+    dst = K.RBFKernel(lengthscale_constraint=mk(lo2, hi2))
+    mid = {"interval": lo1 + 0.37 * (hi1 - lo1), "greater": lo1 + 1.3, "less": hi1 - 1.3}[case["cls"]]
+    src.lengthscale = mid
+    dst.lengthscale = {"interval": lo2 + 0.6 * (hi2 - lo2), "greater": lo2 + 0.2, "less": hi2 - 0.2}[case["cls"]]
+    dst(torch.randn(3, 1)).to_dense()
+    dst.load_state_dict(src.state_dict())
+    cons = dst.raw_lengthscale_constraint
+    ctx.close("bounds_carried_by_state_dict", torch.stack([cons.lower_bound.reshape(()), cons.upper_bound.reshape(())]).nan_to_num(posinf=9e9, neginf=-9e9),
+              torch.tensor([lo1 if case["cls"] != "less" else -9e9, hi1 if case["cls"] != "greater" else 9e9], dtype=torch.get_default_dtype()), (1e-12, 0.0), cls="bounds:" + case["cls"])
+    ctx.close("setter_roundtrip", dst.lengthscale.detach().reshape(()), torch.tensor(float(mid)), (1e-9, 1e-9), cls="loaded_bounds:value:" + case["cls"])
+    raw = torch.linspace(-30, 30, 41)
+    tv = cons.transform(raw)
+    lo_, hi_ = cons.lower_bound, cons.upper_bound
+    ctx.expect("transform_into_bounds", bool(((tv >= lo_ - 1e-12) & (tv <= hi_ + 1e-12)).all()), f"after loading bounds [{lo1}, {hi1}] into a constraint built with [{lo2}, {hi2}]: transform leaves [{float(tv.min()):.4g}, {float(tv.max()):.4g}]", cclass=case["cls"])
+    inner = raw[(raw.abs() < 12)]
+    ctx.close("inverse_is_inverse", cons.inverse_transform(cons.transform(inner)), inner, (1e-6, 1e-6), cls="loaded_bounds:inverse:" + case["cls"])
+    newv = {"interval": lo1 + 0.81 * (hi1 - lo1), "greater": lo1 + 2.9, "less": hi1 - 2.9}[case["cls"]]
+    try:
+        dst.lengthscale = newv
+        ctx.close("setter_roundtrip", dst.lengthscale.detach().reshape(()), torch.tensor(float(newv)), (1e-9, 1e-9), cls="loaded_bounds:setter:" + case["cls"])
+    except Exception as e:
+        ctx.fail("setter_roundtrip", f"in-bounds assignment {newv} rejected after loading bounds [{lo1}, {hi1}]: {type(e).__name__}: {str(e)[:100]}", "raise", cclass=case["cls"])
+    check_invariant(ctx, dst, "load_state_dict with other bounds")
     ctx.cell({k: v for k, v in case.items() if k != "seed"})
 
 
